@@ -464,6 +464,67 @@ def update_order_rule(prog, rep):
               witness={"history": "update({(2,): [0]}) on an index where row 0 is listed under value 1"})
 
 
+def update_clear_cases(prog, rep):
+    """R-C07-de (CLEARED-COMPLETELY): inside update()'s clearing pass, an entry that has rows among the
+    target cells is either re-stored without them (some rows remain) or scheduled for deletion (none
+    remains) - on EVERY path, with no further condition."""
+    from sa.symex import flat_guards
+    fi = prog.func("iindexes", "iindex.update")
+    I = Interp(prog, hints.param_types_for("iindexes"), hints.FIELD_TYPES, inline=False)
+    I.run(fi)
+    self_t = tm.param("self")
+    where = fi.fq
+
+    def is_red(c, names):
+        return (c.op == "call" and ((tm.callee_name(c) or "") in tuple("numpy." + n for n in names) or (tm.callee_name(c) or "") in tuple("." + n for n in names)))
+
+    # actions inside a loop over self's entries
+    acts = []
+    for e in I.events:
+        if not e.loops or e.stack:
+            continue
+        in_self_loop = any(I.loopinfo[l].get("iter") is not None and tm.contains(I.loopinfo[l]["iter"], lambda x: x == self_t) for l in e.loops)
+        if not in_self_loop:
+            continue
+        if e.kind == "store_sub" and e["base"] == self_t and tm.contains(e["value"], lambda x: x.op == "unop" and x.args[0] == "~"):
+            acts.append(("restore", e))
+        elif e.kind == "del_sub" and e["base"] == self_t:
+            acts.append(("delete", e))
+        elif e.kind == "call" and e["method"] == "append" and e["recv"] is not None and e["recv"].op == "alloc" and e["args"] and e["args"][0].op == "dkey":
+            # deferred deletion list: must be drained by `del self[k]` afterwards
+            lst = e["recv"]
+            drained = any(d.kind == "del_sub" and d["base"] == self_t and d.seq > e.seq and tm.contains(d["index"], lambda x: x.op == "iter" and x.args[0] == lst) for d in I.events)
+            if drained:
+                acts.append(("delete", e))
+    if not acts:
+        rep.undecided("R-C07-de", where, "update: clearing pass", "no re-store / deletion of an existing entry found inside a loop over self")
+        return
+    # classify each action's guards: atoms over the match mask (any / all) and other atoms
+    cases = {}
+    for kind, e in acts:
+        g = flat_guards(e.guards)
+        anyp = [pol for c, pol in g if is_red(c, ("any", "count_nonzero"))]
+        allp = [pol for c, pol in g if is_red(c, ("all",))]
+        extra = [(c, pol) for c, pol in g if not is_red(c, ("any", "count_nonzero", "all"))]
+        cases.setdefault(kind, []).append((anyp, allp, extra, e))
+    for kind, need_all, text in (("delete", True, "every row of the entry is a target cell -> the entry is deleted"), ("restore", False, "some rows remain -> the entry is re-stored without the target rows")):
+        found = [x for x in cases.get(kind, []) if (need_all in x[1] or not x[1])]
+        cons = "update: " + text
+        if not found:
+            rep.violated("R-C07-de", where, cons, "no such action in the clearing pass: rows named in the update stay under their old value",
+                         witness={"history": "update({(2,): [0]}) on an index where row 0 is listed under value 1"})
+            continue
+        uncond = [x for x in found if not x[2]]
+        if uncond:
+            rep.proved("R-C07-de", "%s@%d" % (where, uncond[0][3].line), cons, "taken on every such path (guards: only the any/all tests of the match mask)")
+        else:
+            x = found[0]
+            rep.violated("R-C07-de", "%s@%d" % (where, x[3].line), cons,
+                         "the action is taken only when additionally %s: on the other path the entry keeps rows that the update moves elsewhere, so a row ends up listed under two values"
+                         % " and ".join("%s is %s" % (tm.show(c)[:40], p) for c, p in x[2]),
+                         witness={"history": "iindex({(1,): [0,1,2], (2,): [5]}, 0, (8,)).update({(1,): [0,1], (2,): [2]}): row 2 is listed under 1 and under 2"})
+
+
 def main(tier):
     rep = core.Report("C07", level="other", rules=RULES, tier=tier,
                       declined="nothing structural; what is assumed: arrays read from existing indexes are well-formed (induction hypothesis), caller-supplied partial entries of update/union_update/... satisfy their documented preconditions")
@@ -476,6 +537,7 @@ def main(tier):
     for fi in roots:
         analyse_root(prog, fi, rep, stats)
     update_order_rule(prog, rep)
+    update_clear_cases(prog, rep)
     rep.analysed["roots"] = [f.fq for f in roots]
     rep.analysed["store_sites"] = stats["sites"]
     rep.floor("R-C07-a", 30, stats["sites"])
